@@ -390,7 +390,21 @@ def run(ck, facts):
         shares(ck, facts)
 
 
+def cpp_runtime_view_rules(ck, rule):
+    """runtime.hpp: a C++ view built from a C `{data, len}` record takes both members (`T{val.data, val.len}`): built from `data` alone, the length is whatever
+    strlen finds -- a sub-slice or a string with an interior NUL arrives with the wrong extent."""
+    rth = C.read_repo("tool/templates/cpp/runtime.hpp.jinja")
+    sites = list(re.finditer(r"[\{\(]\s*(\w+)\.data\s*([,\}\)])\s*((?:\w+)\.len)?", rth))
+    for i, m_ in enumerate(sites):
+        ok_ = m_.group(2) == "," and m_.group(3) == m_.group(1) + ".len"
+        ck.expect(ok_, rule, "cpp/runtime.hpp/view-from-data-and-len#%d" % i, "{x.data, x.len}", "a view is constructed from `%s.data` %s: its length no longer is the one Rust passed" %
+                  (m_.group(1), "alone" if m_.group(2) != "," else "and `%s`" % (m_.group(3) or "something else")), "tool/templates/cpp/runtime.hpp.jinja")
+    if len(sites) < 1:
+        ck.bad(rule, "cpp/runtime.hpp/view-from-data-and-len/floor", "no view construction from a C {data, len} record found in runtime.hpp (1 counted: fn_traits::replace)", "tool/templates/cpp/runtime.hpp.jinja")
+
+
 def shares(ck, facts):
+    cpp_runtime_view_rules(ck, "R7")
     # JS: a primitive slice is copied element by element through the typed array of the element's wasm32 type (C08.R4: kind and width per primitive)
     import c08
     c08.run(C.SubCheck(ck, "R7", "", ["R4"]), facts)
